@@ -1,9 +1,13 @@
 (* C11 -- When changes stop the controller converges to the intended state.
-   Proved: a node or ClusterCIDR work item that failed is always queued again, never dropped.
-   Not proved (checked by the monitor after a fair drain of every history): progress and bounded
-   convergence; fairness and timing of the real rate limiter are represented only by Tick.
+   Proved: a node or ClusterCIDR work item that failed is always queued again, never dropped (safety half);
+   the progress step for nodes: a node without pod CIDRs for which some considered ClusterCIDR has room IS
+   served when its item runs with a successful write; and conversely a refusal means no considered entry has
+   room (C05) -- so each fair, fault-free round strictly reduces the number of servable unserved nodes.
+   Not proved (checked by the monitor after a fair drain of every history): the measure argument as one
+   theorem over drain schedules (bounded convergence), and the ClusterCIDR-deletion half of the steady state;
+   fairness and timing of the real rate limiter are represented only by Tick.
    Recorded residue: K-AMB. *)
-From NIPAM Require Import Sys Alloc_proofs Sys_proofs.
+From NIPAM Require Import Sys Alloc_proofs Sys_proofs Inv_proofs Complete_proofs Path_proofs Progress_proofs.
 Open Scope N_scope.
 
 Theorem C11_partial_failed_node_item_requeued :
@@ -19,3 +23,15 @@ Theorem C11_partial_failed_cc_item_requeued :
   In key (q_retry (w_cq w')) /\ ob_requeued ob = true.
 Proof. exact failed_cc_item_requeued. Qed.
 Print Assumptions C11_partial_failed_cc_item_requeued.
+
+(* progress step: a servable node is served by one successful run of its work item *)
+Theorem C11_partial_servable_node_is_served :
+  forall po lab canp apisame held m node nr outs ps,
+  MapInv m -> KU m -> n_cidrs node = [] -> n_deleting node = false -> n_cidrs nr = [] ->
+  (forall cs, canp cs = true) ->
+  ordered_matching po lab m (n_labels node) true = Ok ps ->
+  (exists p c, In p ps /\ get_entry m p = Some c /\ ~ no_room m held c) ->
+  exists m' cs, cs <> [] /\
+    sync_node po lab canp apisame held m (Some node) (Some nr) (POk :: outs) = (m', Ok tt, [FxPatch (n_name node) cs POk]).
+Proof. exact servable_node_is_served. Qed.
+Print Assumptions C11_partial_servable_node_is_served.
